@@ -17,7 +17,7 @@ RECURSIVE Ends(_,_,_,_), CatEnds(_,_,_,_,_), AltEnds(_,_,_,_,_), RepEnds(_,_,_,_
 Ends(n, s, i, caps) ==
   CASE n.k = "chr" -> IF i <= Len(s) /\ s[i] = n.c THEN << <<i+1, caps>> >> ELSE <<>>
     [] n.k = "set" -> IF i <= Len(s) /\ s[i] \in n.s THEN << <<i+1, caps>> >> ELSE <<>>
-    [] n.k = "eol" -> IF i = Len(s) + 1 THEN << <<i, caps>> >> ELSE <<>>
+    [] n.k = "eol" -> IF i = Len(s) + 1 \/ (i = Len(s) /\ s[i] = 10) THEN << <<i, caps>> >> ELSE <<>>   \* $ also matches before a final newline
     [] n.k = "bol" -> IF i = 1 THEN << <<i, caps>> >> ELSE <<>>
     [] n.k = "cat" -> CatEnds(n.xs, 1, s, i, caps)
     [] n.k = "alt" -> AltEnds(n.xs, 1, s, i, caps)
